@@ -132,6 +132,22 @@ class Closure:
         self.cls = cls
 
 
+class SuperRef:
+    def __init__(self, self_ref, cls):
+        self.self_ref = self_ref
+        self.cls = cls
+
+
+class ClassRef:
+    def __init__(self, name):
+        self.name = name
+
+
+class Hooked:
+    def __init__(self, fn):
+        self.fn = fn
+
+
 class Builtin:
     def __init__(self, name):
         self.name = name
@@ -140,6 +156,18 @@ class Builtin:
 class ModuleRef:
     def __init__(self, name):
         self.name = name
+
+
+class Opaque:
+    """value outside the modelled subset (result of an abstracted statement); any operation on it is opaque"""
+    _n = itertools.count()
+
+    def __init__(self, why=""):
+        self.why = why
+        self.id = next(Opaque._n)
+
+    def __repr__(self):
+        return "Opaque(%s)" % self.why
 
 
 class PState:
@@ -198,6 +226,10 @@ def both_real(a, b):
 
 
 def truth(v):
+    if isinstance(v, Opaque):
+        return z3.Bool("opaque!cond!%d" % v.id)
+    if isinstance(v, tuple) and v and v[0] == "array-compare":
+        return z3.Bool("opaque!cond!%d" % next(Opaque._n))
     if isinstance(v, bool):
         return z3.BoolVal(v)
     if v is None:
@@ -218,7 +250,7 @@ NP_MATH = {"exp": "exp", "log": "log", "sqrt": "sqrt", "sinh": "sinh", "cosh": "
 
 
 class PyExec:
-    def __init__(self, module, sink=None, prefix="", globals_=None, abstract=(), loops=None, split=False, hooks=None):
+    def __init__(self, module, sink=None, prefix="", globals_=None, abstract=(), loops=None, split=False, hooks=None, opaque_unknown=False):
         self.mod = module
         self.sink = sink
         self.prefix = prefix
@@ -230,12 +262,15 @@ class PyExec:
         self.depth = 0
         self.facts = []
         self.hooks = hooks or {}
+        self.opaque_unknown = opaque_unknown
 
     def sub_exec(self, rel):
         if not hasattr(self, "_subs"):
             self._subs = {}
         if rel not in self._subs:
-            self._subs[rel] = PyExec(load(rel), self.sink, self.prefix, globals_=self.globals, abstract=self.abstract, hooks=self.hooks)
+            self._subs[rel] = PyExec(load(rel), self.sink, self.prefix, globals_=self.globals, abstract=self.abstract, hooks=self.hooks,
+                                     opaque_unknown=self.opaque_unknown)
+            self._subs[rel].abstracted = self.abstracted
         return self._subs[rel]
 
     # ------------------------------------------------------------ obligations
@@ -365,6 +400,9 @@ class PyExec:
             if all(v is v0 for v in vals):
                 env[key] = v0
                 continue
+            if any(isinstance(v, Opaque) for v in vals):
+                env[key] = Opaque("merge of abstracted values")
+                continue
             if all(isinstance(v, Ref) and v.id == v0.id for v in vals if isinstance(v, Ref)) and all(isinstance(v, Ref) for v in vals):
                 env[key] = v0
                 continue
@@ -489,7 +527,9 @@ class PyExec:
             return self.exec_while(st, n, env)
         if isinstance(n, ast.Assert):
             c = truth(self.eval(st, n.test, env))
-            self.oblige("assert", st, c, n)
+            if not getattr(self, "assert_as_assume", False):
+                self.oblige("assert", st, c, n)
+            # a failing assert raises AssertionError: the normal path continues with the condition true
             st.pc.append(c)
             return [(st, "normal", None, env)]
         if isinstance(n, (ast.Import, ast.ImportFrom)):
@@ -598,6 +638,10 @@ class PyExec:
             env[target.id] = v
             return
         if isinstance(target, (ast.Tuple, ast.List)):
+            if isinstance(v, Opaque):
+                for t in target.elts:
+                    self.assign(st, t, Opaque("component of an abstracted value"), env)
+                return
             items = self.iterate(st, v)
             if len(items) != len(target.elts):
                 raise CheckerError("unpack length mismatch")
@@ -627,6 +671,8 @@ class PyExec:
         raise CheckerError("symbolic index into a python sequence: %s" % (i,))
 
     def setitem(self, st, o, idx, v):
+        if isinstance(o, Opaque):
+            return
         if isinstance(o, dict):
             o[idx] = v
             return
@@ -685,6 +731,10 @@ class PyExec:
                 return Closure(self.mod.funcs[n.id], {}, self.mod)
             if n.id in self.mod.consts:
                 return self.eval(st, self.mod.consts[n.id], {})
+            if n.id in self.mod.classes:
+                return ClassRef(n.id)
+            if n.id == "super":
+                return Builtin("super")
             if n.id in ("abs", "len", "range", "zip", "enumerate", "float", "int", "min", "max", "sum",
                         "isinstance", "list", "tuple", "bool", "round", "sorted", "print", "str", "dict", "reversed", "any", "all"):
                 return Builtin(n.id)
@@ -697,6 +747,9 @@ class PyExec:
                 if org.startswith("phonopy."):
                     modname, attr = org.rsplit(".", 1)
                     rel = modname.replace(".", "/") + ".py"
+                    if "new:" + attr in self.hooks:
+                        hk = self.hooks["new:" + attr]
+                        return Hooked(hk)
                     if os.path.exists(os.path.join(REPO, rel)):
                         sub = self.sub_exec(rel)
                         return sub.eval(st, ast.Name(id=attr, ctx=ast.Load()), {})
@@ -714,6 +767,8 @@ class PyExec:
             return self.binop(st, n.op, self.eval(st, n.left, env), self.eval(st, n.right, env), n)
         if isinstance(n, ast.UnaryOp):
             v = self.eval(st, n.operand, env)
+            if isinstance(v, Opaque):
+                return truth(v) if isinstance(n.op, ast.Not) and False else Opaque("unary op on abstracted value")
             if isinstance(n.op, ast.USub):
                 if isinstance(v, Ref):
                     return self.nd_map(st, v, lambda x: -num(x))
@@ -739,6 +794,8 @@ class PyExec:
                 right = self.eval(st, r, env)
                 res.append(self.compare(op, left, right, st))
                 left = right
+            if any(isinstance(r_, (Opaque, Ref)) for r_ in res):
+                return res[0] if len(res) == 1 else Opaque("chained comparison")
             return simp(z3.And(*res)) if len(res) > 1 else res[0]
         if isinstance(n, ast.IfExp):
             c = truth(self.eval(st, n.test, env))
@@ -767,13 +824,18 @@ class PyExec:
         if isinstance(n, ast.ListComp) and len(n.generators) == 1 and not n.generators[0].ifs:
             g = n.generators[0]
             out = []
-            for item in self.iterate(st, self.eval(st, g.iter, env)):
+            itv = self.eval(st, g.iter, env)
+            if isinstance(itv, Opaque):
+                return Opaque("comprehension over an abstracted value")
+            for item in self.iterate(st, itv):
                 e2 = dict(env)
                 self.assign(st, g.target, item, e2)
                 out.append(self.eval(st, n.elt, e2))
             return st.new(PList(out))
         if isinstance(n, ast.JoinedStr):
             return "<fstring>"
+        if self.opaque_unknown and isinstance(n, (ast.ListComp, ast.DictComp, ast.GeneratorExp, ast.SetComp, ast.Starred)):
+            return self.opaque(n, "comprehension")
         raise CheckerError("unsupported python expression %s (line %s)" % (type(n).__name__, getattr(n, "lineno", "?")))
 
     def compare(self, op, a, b, st=None):
@@ -791,6 +853,18 @@ class PyExec:
                 r = a in b
                 return z3.BoolVal(r if isinstance(op, ast.In) else not r)
             raise CheckerError("'in' on symbolic values")
+        if isinstance(a, Opaque) or isinstance(b, Opaque):
+            return Opaque("comparison with an abstracted value")
+        if (isinstance(a, Ref) or isinstance(b, Ref)) and st is not None:
+            A = self.to_nd(st, a) if isinstance(a, (Ref, tuple, list)) else a
+            B = self.to_nd(st, b) if isinstance(b, (Ref, tuple, list)) else b
+            if isinstance(A, NDArr) and isinstance(B, NDArr) and A.shape == B.shape:
+                return st.new(NDArr(A.shape, [self.compare(op, x, y) for x, y in zip(A.flat, B.flat)], "bool"))
+            if isinstance(A, NDArr) and not isinstance(B, NDArr):
+                return st.new(NDArr(A.shape, [self.compare(op, x, B) for x in A.flat], "bool"))
+            if isinstance(B, NDArr) and not isinstance(A, NDArr):
+                return st.new(NDArr(B.shape, [self.compare(op, A, y) for y in B.flat], "bool"))
+            return Opaque("array comparison")
         if isinstance(a, Ref) or isinstance(b, Ref):
             return ("array-compare", a, b)
         if isinstance(a, str) or isinstance(b, str) or a is None or b is None:
@@ -802,7 +876,13 @@ class PyExec:
         return simp({ast.Lt: a < b, ast.LtE: a <= b, ast.Gt: a > b, ast.GtE: a >= b,
                      ast.Eq: a == b, ast.NotEq: a != b}[type(op)])
 
+    def opaque(self, node, why):
+        self.abstracted.append("%s line %s: %s" % (self.mod.relpath, getattr(node, "lineno", "?"), why))
+        return Opaque(why)
+
     def binop(self, st, op, a, b, node):
+        if isinstance(a, Opaque) or isinstance(b, Opaque):
+            return Opaque("arithmetic on an abstracted value")
         if isinstance(op, ast.Mult):
             for x, y in ((a, b), (b, a)):
                 if isinstance(y, Ref) and isinstance(st.heap[y.id], PList) and not isinstance(x, Ref):
@@ -967,6 +1047,8 @@ class PyExec:
         raise CheckerError("dot of shapes %s %s" % (A.shape, B.shape))
 
     def getitem(self, st, o, idx):
+        if isinstance(o, Opaque) or isinstance(idx, Opaque) or (isinstance(idx, tuple) and any(isinstance(i, Opaque) for i in idx)):
+            return Opaque("subscript of an abstracted value")
         if isinstance(o, dict):
             if is_sym(idx):
                 raise CheckerError("symbolic dict key")
@@ -1029,6 +1111,21 @@ class PyExec:
     def attribute(self, st, n, env):
         o = self.eval(st, n.value, env)
         a = n.attr
+        if isinstance(o, Opaque):
+            return Opaque("attribute of an abstracted value")
+        if isinstance(o, SuperRef):
+            cls = o.cls
+            bases = [b.id for b in self.mod.classes[cls].bases if isinstance(b, ast.Name)] if cls in self.mod.classes else []
+            for b in bases:
+                if b in self.mod.classes:
+                    m = self.mod.method(b, a)
+                    if m is not None:
+                        return Closure(m, {}, self.mod, self_ref=o.self_ref, cls=b)
+            key = "super.%s" % a
+            if key in self.hooks:
+                hk = self.hooks[key]
+                return Hooked(lambda ex, st_, args, kwargs, hk=hk, sr=o.self_ref: hk(ex, st_, [sr] + list(args), kwargs))
+            raise CheckerError("super().%s: base class of %s is not in this module and no hook is given" % (a, cls))
         if isinstance(o, ModuleRef):
             return ModuleRef(o.name + "." + a)
         if isinstance(o, Ref):
@@ -1043,6 +1140,12 @@ class PyExec:
                         outs = self.call_function(st, m, [], self_ref=o, cls=obj.cls)
                         return self.single_return(st, outs)
                     return Closure(m, {}, self.mod, self_ref=o, cls=obj.cls)
+                key = "%s.%s" % (obj.cls, a)
+                if key in self.hooks:
+                    hk = self.hooks[key]
+                    return Hooked(lambda ex, st_, args, kwargs, hk=hk, o=o: hk(ex, st_, [o] + list(args), kwargs))
+                if self.opaque_unknown:
+                    return self.opaque(n, "attribute %s of record %s" % (a, obj.cls))
                 raise CheckerError("record %s has no attribute %s" % (obj.cls, a))
             if isinstance(obj, NDArr):
                 if a == "T":
@@ -1055,23 +1158,29 @@ class PyExec:
                 return Builtin("nd." + a + "@" + str(o.id))
             if isinstance(obj, PList):
                 return Builtin("list." + a + "@" + str(o.id))
+        if self.opaque_unknown:
+            return self.opaque(n, "attribute .%s of %r" % (a, type(o).__name__))
         raise CheckerError("unsupported attribute .%s on %r" % (a, o))
 
     def single_return(self, st, outs):
+        """value of a call in expression position: raising paths end there (partial correctness: the caller
+        continues only on the paths that return); several returning paths are merged"""
         rets = [o for o in outs if o[1] == "return"]
-        if len(rets) != 1 or len(outs) != 1:
-            # merge
-            if all(o[1] == "return" for o in outs):
-                m = self.merge([(o[0], {"__r": o[2]}) for o in outs])
-                if m is not None:
-                    st.heap, st.pc = m[0].heap, m[0].pc
-                    return m[1]["__r"]
-            raise CheckerError("call with multiple outcomes in expression position (%d)" % len(outs))
-        s2, _, v = outs[0]
+        self.raised = getattr(self, "raised", []) + [o for o in outs if o[1] == "raise"]
+        if not rets:
+            raise CheckerError("call never returns normally on the explored paths")
+        if len(rets) > 1:
+            m = self.merge([(o[0], {"__r": o[2]}) for o in rets])
+            if m is None:
+                raise CheckerError("call with %d return paths that cannot be merged" % len(rets))
+            st.heap, st.pc = m[0].heap, m[0].pc
+            return m[1]["__r"]
+        s2, _, v = rets[0]
         st.heap, st.pc = s2.heap, s2.pc
         return v
 
     def call(self, st, n, env):
+        self.cur_env = env
         f = self.eval(st, n.func, env)
         args = []
         for a in n.args:
@@ -1089,15 +1198,45 @@ class PyExec:
                 return z3.Real("abs!%s!%d" % (key, next(Ref._ids)))
             outs = self.call_function(st.clone(), f.node, args, kwargs, env=f.env, self_ref=f.self_ref, cls=f.cls)
             return self.single_return(st, outs)
+        if isinstance(f, Hooked):
+            return f.fn(self, st, args, kwargs)
+        if isinstance(f, Opaque):
+            return Opaque("call of an abstracted value")
         if isinstance(f, Builtin):
-            return self.builtin(st, f.name, args, kwargs, n)
+            if f.name == "len" and args and isinstance(args[0], (Opaque,)):
+                return Opaque("len of an abstracted value")
+            try:
+                return self.builtin(st, f.name, args, kwargs, n)
+            except (CheckerError, AttributeError, TypeError, KeyError, IndexError):
+                if self.opaque_unknown:
+                    return self.opaque(n, "builtin %s" % f.name)
+                raise
         if isinstance(f, ModuleRef):
             if f.name in self.hooks:
                 return self.hooks[f.name](self, st, args, kwargs)
-            return self.modcall(st, f.name, args, kwargs, n)
+            if any(isinstance(a_, Opaque) for a_ in list(args) + list(kwargs.values())):
+                return Opaque("library call on an abstracted value")
+            try:
+                return self.modcall(st, f.name, args, kwargs, n)
+            except (CheckerError, AttributeError, TypeError, KeyError, IndexError):
+                if self.opaque_unknown:
+                    return self.opaque(n, "library call %s" % f.name)
+                raise
+        if isinstance(f, ClassRef):
+            key = "new:" + f.name
+            if key in self.hooks:
+                return self.hooks[key](self, st, args, kwargs)
+            ref = st.new(Record(f.name, {}))
+            init = self.mod.method(f.name, "__init__")
+            if init is not None:
+                outs = self.call_function(st.clone(), init, args, kwargs, self_ref=ref, cls=f.name)
+                self.single_return(st, outs)
+            return ref
         raise CheckerError("call of unsupported value %r (line %s)" % (f, n.lineno))
 
     def builtin(self, st, name, args, kwargs, node):
+        if name == "super":
+            return SuperRef(self.cur_env.get("self"), self.cur_env.get("__cls__"))
         if name == "abs":
             v = num(args[0])
             return z3.If(v >= 0, v, -v)
@@ -1108,7 +1247,12 @@ class PyExec:
             o = st.heap[a.id]
             return len(o.items) if isinstance(o, PList) else o.shape[0]
         if name == "range":
-            return range(*[self.cidx(a) for a in args])
+            try:
+                return range(*[self.cidx(a) for a in args])
+            except CheckerError:
+                if self.opaque_unknown:
+                    return Opaque("range over a symbolic bound")
+                raise
         if name == "zip":
             return list(zip(*[self.iterate(st, a) for a in args]))
         if name == "enumerate":
@@ -1227,13 +1371,24 @@ class PyExec:
                 return st.new(NDArr((m_, n_), [a.flat[i * m_ + j] for j in range(m_) for i in range(n_)]))
             if short == "rint":
                 a = args[0]
-                f = lambda x: RINT(to_real(num(x)))
+
+                def f(x):
+                    # round half to even, exactly
+                    x = to_real(num(x))
+                    fl = z3.ToInt(x)
+                    d_ = x - z3.ToReal(fl)
+                    half = z3.RealVal("1/2")
+                    return z3.ToReal(z3.If(d_ < half, fl, z3.If(d_ > half, fl + 1, z3.If(fl % 2 == 0, fl, fl + 1))))
                 return self.nd_map(st, a, f) if isinstance(a, Ref) else f(a)
             if short == "sign":
                 f = lambda x: z3.If(num(x) > 0, 1, z3.If(num(x) < 0, -1, 0))
                 return self.nd_map(st, args[0], f) if isinstance(args[0], Ref) else f(args[0])
             if short == "sum":
                 return self.builtin(st, "sum", [self.to_nd(st, args[0]).flat], {}, node)
+            if short == "diagonal":
+                a = self.to_nd(st, args[0])
+                k = a.shape[0]
+                return st.new(NDArr((k,), [a.flat[i * a.shape[1] + i] for i in range(k)], a.dtype))
             if short == "diag":
                 a = self.to_nd(st, args[0])
                 if len(a.shape) == 1:
@@ -1269,7 +1424,8 @@ class PyExec:
             raise CheckerError("inv of shape %s" % (a.shape,))
         f = [to_real(num(x)) for x in a.flat]
         d = self.det(st, NDArr((3, 3), f))
-        self.oblige("div", st, d != 0, node, label="det != 0")
+        # numpy raises LinAlgError for a singular matrix: the normal path continues only with det != 0
+        st.pc.append(d != 0)
         c = lambda i, j: f[((i + 1) % 3) * 3 + (j + 1) % 3] * f[((i + 2) % 3) * 3 + (j + 2) % 3] - \
             f[((i + 1) % 3) * 3 + (j + 2) % 3] * f[((i + 2) % 3) * 3 + (j + 1) % 3]
         return st.new(NDArr((3, 3), [c(j, i) / d for i in range(3) for j in range(3)]))
